@@ -110,9 +110,21 @@ class LUDomain(opsdom.OpsDomain):
             if (A.op == "c") != (B.op == "c"):
                 same = dag.equal(A, B)
                 return same if op == "==" else not same
-        if op in ("<", ">", "<=", ">=") and (symdom.is_sym(a) or symdom.is_sym(b)):
+        if op in ("<", ">", "<=", ">=") and (symdom.is_sym(a) or symdom.is_sym(b)) and not isinstance(a, symdom.Lin) and not isinstance(b, symdom.Lin):
             # `std::abs(diag) < 1e-12`: pivots are assumed non-vanishing (hypothesis of the property)
             A, B = dag.lift(a), dag.lift(b)
+            if not (A.op == "f" and A.a in ("abs", "fabs") and B.op == "c"):
+                # any other value-dependent comparison (e.g. a relative tolerance test on a right-hand side entry): answered as a
+                # generic instance answers it (test point 0), and forked like the magnitude tests
+                p0 = dag.points()[0]
+                va, vb = p0.value(A), p0.value(B)
+                generic = {"<": va < vb, "<=": va <= vb, ">": va > vb, ">=": va >= vb}[op]
+                k = self.pivot_tests
+                self.pivot_tests += 1
+                if self.force_small is not None and k == self.force_small:
+                    self.forced_site = ir.locstr(e)
+                    return not generic
+                return generic
             if A.op == "f" and A.a in ("abs", "fabs") and B.op == "c":
                 k = self.pivot_tests
                 self.pivot_tests += 1
@@ -134,6 +146,17 @@ class LUDomain(opsdom.OpsDomain):
         base = conc.strip_targs(callee)
         m = base.rsplit("::", 1)[-1]
         args = e["args"]
+        if base == "std::numeric_limits::epsilon" or callee.startswith("std::numeric_limits<double>::epsilon"):
+            from fractions import Fraction
+            return dag.const(Fraction(1, 2 ** 52))
+        if k == "Call" and base in ("std::max", "std::min") and len(args) == 2:
+            a_, b_ = it.rvalue(args[0], fr), it.rvalue(args[1], fr)
+            if (symdom.is_sym(a_) or symdom.is_sym(b_)) and not isinstance(a_, symdom.Lin) and not isinstance(b_, symdom.Lin):
+                A_, B_ = dag.lift(a_), dag.lift(b_)
+                if not (A_.op == "c" and B_.op == "c"):
+                    p0 = dag.points()[0]
+                    first_larger = p0.value(A_) >= p0.value(B_)   # the generic instance decides which operand is selected
+                    return (A_ if first_larger else B_) if base == "std::max" else (B_ if first_larger else A_)
         if base in ("std::exit", "exit", "std::abort", "abort", "std::terminate"):
             raise Aborts("%s() at %s" % (base, ir.locstr(e)))
         if k == "OpCall" and e["op"] == "<<" and args:
